@@ -226,7 +226,7 @@ func VerifC07_Gradient2_ZeroRTTStaysRecoverable() {
 	verif.Reach("end")
 }
 
-//verif:harness property=C07 theory=bv tier=quick timeout=120 portfolio=1 solver=cvc5 feastimeout=2
+//verif:harness property=C07 theory=bv tier=thorough timeout=120 portfolio=1 solver=cvc5 feastimeout=2
 func VerifC07_Gradient_ZeroRTTStaysRecoverable() {
 	l := NewGradientLimitWithRegistry("g", 20, 1, 1000, 0.2, nil, 2.0, ProbeDisabled, nil, nil)
 	est := verif.Float("est")
